@@ -11,7 +11,7 @@ Definition D := LDeliver 0%nat false.
 
 (* client subscribe command, recover from the current top (2): offset 3 is lost by PUB/SUB
    inside the subscribe window, offset 4 is buffered; the reply announces 2 and carries [4] *)
-Definition cfg_client_recover := mkCfg VClient true true 2 1 false false false false false.
+Definition cfg_client_recover := mkCfg VClient true true 2 1 false false false false false false false.
 Definition sched_client_drop : list label :=
   [P; P; D; D; LReserve; LStartBuf; LHubAdd; LHistRead; P; P; LDrop 0%nat; D; LSync;
    LMerge; LWriteReply; LCommit; LStopBuf; P; D; LSync; LCheck; LEnqueue].
@@ -24,7 +24,7 @@ Definition sched_client_delay : list label :=
 
 (* server-side Client.Subscribe with RecoverSince 1 of 3: no fault at all; the push announces
    1, carries nothing, the position jumps to 3 and the next live publication is 4 *)
-Definition cfg_server_recover := mkCfg VServer true true 1 1 false false false false false.
+Definition cfg_server_recover := mkCfg VServer true true 1 1 false false false false false false false.
 Definition sched_server : list label :=
   [P; P; P; D; D; D; LReserve; LStartBuf; LHubAdd; LHistRead; LMerge; LCommit; LSrvPush; LStopBuf;
    P; D; LSync; LCheck; LEnqueue].
@@ -67,15 +67,15 @@ Proof. vm_compute. reflexivity. Qed.
 (* the same schedules under the patched model: the client path refuses / trims, the server
    path delivers the recovered publications after the push *)
 Example patched_drop :
-  option_map pc (run (mkCfg VClient true true 2 1 false true false false false) init
+  option_map pc (run (mkCfg VClient true true 2 1 false true false false false false false) init
      [P; P; D; D; LReserve; LStartBuf; LHubAdd; LHistRead; P; P; LDrop 0%nat; D; LSync; LMerge])
   = Some SFailStop.
 Proof. vm_compute. reflexivity. Qed.
 Example patched_delay :
-  option_map log (run (mkCfg VClient true true 2 1 false true false false false) init sched_client_delay)
+  option_map log (run (mkCfg VClient true true 2 1 false true false false false false false) init sched_client_delay)
   = Some [FSubReply true [] 2 1].
 Proof. vm_compute. reflexivity. Qed.
 Example patched_server :
-  option_map log (run (mkCfg VServer true true 1 1 false true true false false) init sched_server)
+  option_map log (run (mkCfg VServer true true 1 1 false true true false false false false) init sched_server)
   = Some [FSubPush 1 1; FPub (mkP 2 1 false); FPub (mkP 3 1 false); FPub (mkP 4 1 false)].
 Proof. vm_compute. reflexivity. Qed.
